@@ -62,14 +62,29 @@ fn main() {
     let exe = std::env::current_exe().unwrap();
     let out = std::io::stdout();
     let mut out = out.lock();
+    let max_hangs: usize = std::env::var("VERIF_MAX_HANGS").ok().and_then(|s| s.parse().ok()).unwrap_or(3);
+    let mut hangs = 0usize;
     let mut next = 0usize; // index of the next line whose record we expect
     while next < ids.len() {
+        if hangs >= max_hangs {
+            // enough evidence: do not spend the time budget of every remaining case
+            if !ids[next].is_empty() {
+                writeln!(out, "{}\tSKIPPED", ids[next]).unwrap();
+            }
+            next += 1;
+            continue;
+        }
         // skip empty lines
         if ids[next].is_empty() {
             next += 1;
             continue;
         }
-        let mut child = Command::new(&exe)
+        // the worker runs under an address-space limit: a non-terminating case that allocates without
+        // bound is stopped by the allocator (abort) instead of exhausting the machine
+        let mut child = Command::new("sh")
+            .arg("-c")
+            .arg("ulimit -v 3000000; exec \"$0\" \"$@\"")
+            .arg(&exe)
             .args(["--worker", &stream, &file, &next.to_string()])
             .stdout(Stdio::piped())
             .stderr(Stdio::null())
@@ -101,6 +116,7 @@ fn main() {
                 Err(mpsc::RecvTimeoutError::Timeout) => {
                     let _ = child.kill();
                     writeln!(out, "{}\tHANG", ids[next]).unwrap();
+                    hangs += 1;
                     next += 1;
                     break;
                 }
@@ -109,6 +125,7 @@ fn main() {
                     let _ = child.wait();
                     if next < ids.len() {
                         writeln!(out, "{}\tABORT", ids[next]).unwrap();
+                        hangs += 1;
                         next += 1;
                     }
                     break;
